@@ -248,3 +248,39 @@ def struct_components(env, ny):
     l1 = h.compute(ins)["fuel_weight_loads"]
     l2 = h.compute(dict(ins, nodes=mirror_nodal3(ins["nodes"]), fuel_vols=ins["fuel_vols"][::-1]))["fuel_weight_loads"]
     env.eq("C07", "fuel loads of the mirror image are the mirror image", l2, mirror_nodal6(l1))
+
+
+@job("c07.struct_chain", ("C07",), cfgs=[dict(ny=3, relief=False), dict(ny=3, relief=True, _tier=T)], ranges=RS, cost=60)
+def struct_chain(env, ny, relief):
+    """the structure-alone chain (nodes, stiffness assembly, weight, loads, FEM, displacements, tube stresses) of a
+    full-span wing with arbitrary asymmetric geometry, section properties and loads vs its mirror image"""
+    nx = 2
+    s = surface(name="wing", nx=nx, ny=ny, symmetry=False, struct_weight_relief=relief)
+    g1 = gsx.GroupSX(env, gsx.struct_model(s), key="A")
+    g2 = gsx.GroupSX(env, gsx.struct_model(s), key="B")
+    env.indicator_branch = 0
+    m = env.var("mesh", (nx, ny, 3))
+    el = {n: env.var(n, (ny - 1,)) for n in ("A", "Iy", "Iz", "J", "radius", "thickness")}
+    loads = env.var("loads", (ny, 6))
+    extra = dict(load_factor=env.var("load_factor", (1,))) if relief else {}
+    v1 = g1.run(dict(el, mesh=m, loads=loads, **extra))
+    sol1 = list(g1.solves)
+    in2 = dict({n: v[::-1] for n, v in el.items()}, mesh=mirror_mesh(m), loads=mirror_nodal6(loads), **extra)
+
+    def mir_aug(x):
+        x = np.asarray(x, dtype=object).reshape(-1)
+        return np.concatenate([mirror_nodal6(x[:6 * ny].reshape(ny, 6)).reshape(-1), x[6 * ny:] * S6])
+    if env.sym:
+        v2 = g2.run(in2, hints={"fem": lambda rec: mir_aug(sol1[0]["x"])})
+        r1 = sol1[0]
+        A1 = r1["A"].T if r1["trans"] else r1["A"]
+        res1 = spshim._mm(A1, np.asarray(r1["x"], dtype=object).reshape(-1)) - np.asarray(r1["b"], dtype=object).reshape(-1)
+        env.eq("C07", "FEM solve lemma: the mirrored displacements (vectors / pseudo-vectors, reversed node order) satisfy the "
+                      "equilibrium equations of the mirror-image structure", g2.solves[0]["residual_at_phi"], mir_aug(res1))
+        env.assumptions.add("non-singular clamped stiffness matrix (uniqueness of the displacements)")
+    else:
+        v2 = g2.run(in2)
+    env.eq("C07", "displacements and rotations of the mirror image are the mirror image", g2.get(v2, "disp"), mirror_nodal6(g1.get(v1, "disp")))
+    env.eq("C07", "tube von Mises stresses of the mirror image are the same per element (reversed order)", g2.get(v2, "vonmises"), g1.get(v1, "vonmises")[::-1])
+    env.eq("C07", "structural mass is unchanged by reflection", g2.get(v2, "structural_mass"), g1.get(v1, "structural_mass"))
+    env.eq("C07", "structural cg is reflected", g2.get(v2, "cg_location"), g1.get(v1, "cg_location") * SM)
